@@ -320,6 +320,15 @@ func directedCases() []struct {
 			}
 		}
 	}
+	// ro2rri reading the last cell of a ROM that is exactly full (program + data = 2^O cells)
+	for _, o := range []int{3, 4} {
+		s := archSpec{mode: "ha", rsize: 8, r: 1, o: o, ops: []string{"inc", "j", "ro2rri", "rset"}}
+		src := []string{fmt.Sprintf("rset r1 %d", (1<<uint(o))-1), "ro2rri r0 r1", "inc r0", fmt.Sprintf("rset r1 %d", (1<<uint(o))-2), "ro2rri r0 r1", "j 5"}
+		res = append(res, struct {
+			s   archSpec
+			src []string
+		}{s, src})
+	}
 	// ro2rri on machines whose registers are wider than the ROM words (no rset, no wide immediate): the
 	// word read is zero-extended into a register whose upper bits were set before
 	for _, r := range []int{1, 2, 3} {
@@ -383,7 +392,11 @@ func genProgram(r *common.Rng, s archSpec) []string {
 		if op == "ro2rri" && hasRset && i+2 < n && r.Chance(3, 4) {
 			// an address inside the ROM (program, or the data that follows it) in the source register
 			rs := r.Intn(1 << uint(s.r))
-			lines = append(lines, fmt.Sprintf("rset r%d %d", rs, r.Intn(n+3)))
+			addr := r.Intn(n + 3)
+			if r.Chance(1, 4) {
+				addr = (1 << uint(s.o)) - 1 // the last cell of the ROM (see dataFor)
+			}
+			lines = append(lines, fmt.Sprintf("rset r%d %d", rs, addr))
 			lines = append(lines, fmt.Sprintf("ro2rri r%d r%d", r.Intn(1<<uint(s.r)), rs))
 			i++
 			continue
@@ -649,6 +662,13 @@ func dataFor(s archSpec, src []string, words int, maxWord int) []string {
 	}
 	room := (1 << uint(s.o)) - words
 	n := 1 + int(h%4)
+	// a source that loads the last ROM address gets a ROM that is full to the last cell
+	last := " " + strconv.Itoa((1<<uint(s.o))-1)
+	for _, l := range src {
+		if strings.HasPrefix(l, "rset ") && strings.HasSuffix(l, last) && room <= 16 {
+			n = room
+		}
+	}
 	if n > room {
 		n = room
 	}
